@@ -31,6 +31,7 @@ class Event:
     node: ast.AST
     term: Optional[Term] = None
     extra: Optional[dict] = None
+    facts: Optional[Dict[Term, bool]] = None     # facts assumed on the path when the event happened
 
     @property
     def lineno(self):
@@ -45,6 +46,10 @@ class State:
     events: List[Event]
     assumptions: List[Tuple[Term, bool, ast.AST]]
     nonempty: Set[Term]
+
+    def add(self, ev: "Event"):
+        ev.facts = dict(self.facts)
+        self.events.append(ev)
 
     def copy(self) -> "State":
         return State(dict(self.env), dict(self.heap), dict(self.facts), list(self.events),
@@ -210,10 +215,10 @@ class Explorer:
         n = self.normalizer(st)
         if isinstance(v, (ast.Yield, ast.YieldFrom)):
             t = n.norm(v)
-            st.events.append(Event("yield", s, t[1]))
+            st.add(Event("yield", s, t[1]))
             return [(st, None)]
         t = n.norm(v)
-        st.events.append(Event("call" if isinstance(v, ast.Call) else "expr", s, t))
+        st.add(Event("call" if isinstance(v, ast.Call) else "expr", s, t))
         return [(st, None)]
 
     def _assign_target(self, tg: ast.expr, value: Term, st: State, node: ast.AST):
@@ -231,12 +236,12 @@ class Explorer:
             cls = self.fn.enclosing_class
             key = T.mk_attr(base, mangle(tg.attr, cls.name if cls else None))
             st.heap[key] = value
-            st.events.append(Event("setattr", node, value, {"target": key}))
+            st.add(Event("setattr", node, value, {"target": key}))
         elif isinstance(tg, ast.Subscript):
             base = n.norm(tg.value)
             idx = n.norm(tg.slice) if not isinstance(tg.slice, ast.Slice) else \
                 ("slice", T.NONE, n.norm_opt(tg.slice.lower), n.norm_opt(tg.slice.upper), n.norm_opt(tg.slice.step))
-            st.events.append(Event("setitem", node, value, {"base": base, "index": idx}))
+            st.add(Event("setitem", node, value, {"base": base, "index": idx}))
             # reads of the same element later on this path see the stored value
             st.heap[T.mk_idx(base, idx)] = value
         elif isinstance(tg, ast.Starred):
@@ -247,16 +252,20 @@ class Explorer:
         if len(s.targets) == 1 and isinstance(s.targets[0], (ast.Tuple, ast.List)) and value[0] == "tuple" \
                 and len(value[1]) == len(s.targets[0].elts) and not any(isinstance(e, ast.Starred) for e in s.targets[0].elts):
             # parallel assignment: evaluate all right-hand sides first
+            st.add(Event("assign", s, value))
             for tg, v in zip(s.targets[0].elts, value[1]):
                 self._assign_target(tg, v, st, s)
             return [(st, None)]
+        st.add(Event("assign", s, value))
         for tg in s.targets:
             self._assign_target(tg, value, st, s)
         return [(st, None)]
 
     def x_AnnAssign(self, s, st):
         if s.value is not None:
-            self._assign_target(s.target, self.normalizer(st).norm(s.value), st, s)
+            value = self.normalizer(st).norm(s.value)
+            st.add(Event("assign", s, value))
+            self._assign_target(s.target, value, st, s)
         return [(st, None)]
 
     def x_AugAssign(self, s, st):
@@ -277,7 +286,7 @@ class Explorer:
             new = T.p_mul(cur, val)
         else:
             new = ("binop", type(s.op).__name__, cur, val)
-        st.events.append(Event("aug", s, new, {"target": cur, "op": type(s.op).__name__, "value": val}))
+        st.add(Event("aug", s, new, {"target": cur, "op": type(s.op).__name__, "value": val}))
         self._assign_target(s.target, new, st, s)
         return [(st, None)]
 
@@ -301,11 +310,12 @@ class Explorer:
         return [(st, None)]
 
     def x_Delete(self, s, st):
-        st.events.append(Event("del", s, None))
+        st.add(Event("del", s, None))
         return [(st, None)]
 
     def x_If(self, s, st):
         cond = self.normalizer(st).norm(s.test, True)
+        st.add(Event("cond", s, cond))
         out = []
         for s2, truth in self.branch(cond, st, s):
             out.extend(self.exec_block(s.body if truth else s.orelse, s2))
@@ -315,7 +325,7 @@ class Explorer:
         n = self.normalizer(st)
         for item in s.items:
             t = n.norm(item.context_expr)
-            st.events.append(Event("with", s, t))
+            st.add(Event("with", s, t))
             if item.optional_vars is not None:
                 self._assign_target(item.optional_vars, t, st, s)
         return self.exec_block(s.body, st)
@@ -332,7 +342,7 @@ class Explorer:
                 out.append((cur, sig))
         for h in s.handlers:
             hs = st.copy()
-            hs.events.append(Event("except", h, None))
+            hs.add(Event("except", h, None))
             if h.name:
                 hs.env[h.name] = ("unk", "exception")
             out.extend(self.exec_block(h.body, hs))
@@ -389,6 +399,7 @@ class Explorer:
                 enter_states = []
                 if cond_expr is not None:
                     cond = self.normalizer(cur).norm(cond_expr, True)
+                    cur.add(Event("cond", s, cond))
                     for s2, truth in self.branch(cond, cur, s):
                         (enter_states if truth else exit_states).append(s2)
                 else:
@@ -407,7 +418,7 @@ class Explorer:
                         enter_states = []
                 if j in self.unroll:
                     for ex in exit_states:
-                        ex.events.append(Event("loop-exit", s, None, {"iterations": j}))
+                        ex.add(Event("loop-exit", s, None, {"iterations": j}))
                         if s.orelse:
                             results.extend(self.exec_block(s.orelse, ex))
                         else:
@@ -415,14 +426,14 @@ class Explorer:
                 if j == max_k:
                     continue
                 for en in enter_states:
-                    en.events.append(Event("iter", s, None, {"index": j}))
+                    en.add(Event("iter", s, None, {"index": j}))
                     if iter_term is not None:
                         self._assign_target(s.target, ("elem", iter_term, j), en, s)
                     for c2, sig in self.exec_block(s.body, en):
                         if sig is None or sig[0] == "continue":
                             nxt.append(c2)
                         elif sig[0] == "break":
-                            c2.events.append(Event("loop-exit", s, None, {"iterations": j + 1, "break": True}))
+                            c2.add(Event("loop-exit", s, None, {"iterations": j + 1, "break": True}))
                             results.append((c2, None))
                         else:
                             results.append((c2, sig))
@@ -434,6 +445,7 @@ class Explorer:
 
     def x_For(self, s, st):
         it = self.normalizer(st).norm(s.iter)
+        st.add(Event("foriter", s, it))
         return self._loop(s, st, it, None)
 
     x_AsyncFor = x_For
